@@ -268,8 +268,9 @@ func c16RunOne(t *testing.T, rng *rand.Rand, tw *vfTraceWriter, trNo int, cfg c1
 
 	// mutate performs the scripted mutations of ctx.Response for request (c,i); it runs in the
 	// goroutine started by TimeoutWithCodeHandler (or by the self handler) and keeps going after the timeout
-	mutate := func(ctx *RequestCtx, c, i int, delays []int, tail int) {
-		for k, d := range delays {
+	mutate := func(ctx *RequestCtx, c, i int, delays []int, tail int, k0 int) {
+		for j, d := range delays {
+			k := k0 + j
 			if d > 0 {
 				time.Sleep(time.Duration(d) * time.Microsecond)
 			}
@@ -308,7 +309,7 @@ func c16RunOne(t *testing.T, rng *rand.Rand, tw *vfTraceWriter, trNo int, cfg c1
 				break
 			}
 		}
-		mutate(ctx, c, i, delays, tail)
+		mutate(ctx, c, i, delays, tail, 0)
 		running.Add(-1)
 	}
 	wrapped := TimeoutWithCodeHandler(h, cfg.timeout, c16Msg, c16Code)
@@ -317,23 +318,60 @@ func c16RunOne(t *testing.T, rng *rand.Rand, tw *vfTraceWriter, trNo int, cfg c1
 			wrapped(ctx)
 			return
 		}
-		// a handler that leaves a goroutine working on ctx and times itself out
+		// a handler that times itself out through one of the TimeoutError* entry points, goes on writing
+		// (first in its own goroutine before it returns, then in a goroutine it leaves behind) and returns.
+		// Everything written after the TimeoutError* call must be ignored - also when it is written into
+		// the very Response object that was passed to TimeoutErrorWithResponse.
 		c, i, delays, tail := parse(ctx)
 		rec.emit(vfRec{"ev": "self.timeout", "c": c})
-		selfWG.Add(1)
-		go func() {
-			defer selfWG.Done()
-			mutate(ctx, c, i, delays, tail)
-			rec.emit(vfRec{"ev": "th.hdone", "c": c, "i": i})
-		}()
-		if i%2 == 0 {
+		var foreign []*Response
+		switch (c + i) % 4 {
+		case 0:
 			ctx.TimeoutErrorWithCode(c16Msg, c16Code)
-		} else {
+		case 1: // a response object of the handler's own
 			var resp Response
 			resp.SetStatusCode(c16Code)
 			resp.SetBodyString(c16Msg)
 			ctx.TimeoutErrorWithResponse(&resp)
+		case 2: // ctx.Response itself is the timeout response
+			ctx.Response.Reset()
+			ctx.Response.SetStatusCode(c16Code)
+			ctx.Response.SetBodyString(c16Msg)
+			ctx.TimeoutErrorWithResponse(&ctx.Response)
+		default: // an acquired Response that is afterwards overwritten in place, appended to, released to the
+			// pool and acquired again by somebody else
+			resp := AcquireResponse()
+			resp.SetStatusCode(c16Code)
+			resp.SetBodyString(c16Msg)
+			ctx.TimeoutErrorWithResponse(resp)
+			mark := fmt.Sprintf("H-%d-%d-7", c, i)
+			resp.SetStatusCode(217)
+			resp.Header.Set("X-Mark", mark)
+			resp.SetBodyString(mark)    // fits the capacity of the body it replaces
+			resp.AppendBodyString(mark) // grows it
+			ReleaseResponse(resp)
+			for n := 0; n < 3; n++ {
+				other := AcquireResponse()
+				other.SetStatusCode(218)
+				other.SetBodyString(fmt.Sprintf("H-%d-%d-8 body of an unrelated response", c, i))
+				foreign = append(foreign, other)
+			}
 		}
+		if len(delays) > 0 { // the first write after the call happens before the handler returns
+			mutate(ctx, c, i, delays[:1], 0, 0)
+			delays = delays[1:]
+		} else {
+			delays = nil
+		}
+		selfWG.Add(1)
+		go func() {
+			defer selfWG.Done()
+			mutate(ctx, c, i, delays, tail, 1)
+			for _, r := range foreign {
+				ReleaseResponse(r)
+			}
+			rec.emit(vfRec{"ev": "th.hdone", "c": c, "i": i})
+		}()
 	}
 	s := &Server{Handler: handler, Concurrency: cfg.conc, DisableKeepalive: cfg.disableKeepalive, Logger: c16NopLogger{}, NoDefaultServerHeader: true}
 	rec.srv = s
